@@ -47,7 +47,8 @@ var c19Dims = []c19Dim{
 	{"misspelt", []string{"", "top", "crl_config", "cdp_config", "ocsp_config"}},
 	// how the Caddyfile spells the same settings (the JSON form is not affected): options of every block in reverse
 	// order, every value in double quotes, every value in backquotes
-	{"caddyfile_spelling", []string{"", "reversed-order", "double-quoted", "backquoted"}},
+	// ... and booleans in the other spellings a Caddyfile boolean has (1/0, T/F, True/False, TRUE/FALSE)
+	{"caddyfile_spelling", []string{"", "reversed-order", "double-quoted", "backquoted", "booleans-1-0", "booleans-T-F", "booleans-True-False", "booleans-TRUE-FALSE"}},
 }
 
 const (
@@ -156,6 +157,18 @@ func (c c19Conf) renderCaddyfile(e *c19Env) string {
 		}
 		return v
 	}
+	qb := func(v string) string {
+		alt := map[int][2]string{4: {"1", "0"}, 5: {"T", "F"}, 6: {"True", "False"}, 7: {"TRUE", "FALSE"}}
+		if a, ok := alt[c[dSpelling]]; ok {
+			switch v {
+			case "true":
+				return a[0]
+			case "false":
+				return a[1]
+			}
+		}
+		return q(v)
+	}
 	block := func(indent string, lines []string) string {
 		if c[dSpelling] == 1 {
 			for i, j := 0, len(lines)-1; i < j; i, j = i+1, j-1 {
@@ -209,7 +222,7 @@ func (c c19Conf) renderCaddyfile(e *c19Env) string {
 				cd = append(cd, "crl_fetch_mode "+q(c.val(dFetch)))
 			}
 			if c.set(dStrict) {
-				cd = append(cd, "crl_cdp_strict "+q(c.val(dStrict)))
+				cd = append(cd, "crl_cdp_strict "+qb(c.val(dStrict)))
 			}
 			if c[dMisspelt] == 3 {
 				cd = append(cd, "crl_cdp_strikt true")
@@ -224,7 +237,7 @@ func (c c19Conf) renderCaddyfile(e *c19Env) string {
 			ls = append(ls, "default_cache_duration "+q(c.val(dCache)))
 		}
 		if c.set(dAIA) {
-			ls = append(ls, "ocsp_aia_strict "+q(c.val(dAIA)))
+			ls = append(ls, "ocsp_aia_strict "+qb(c.val(dAIA)))
 		}
 		for _, f := range c.pems(dResponder, e) {
 			ls = append(ls, "trusted_responder_cert_file "+q(f))
